@@ -108,7 +108,7 @@ struct FlatSetEngine : EngineBase {
   void drop_hold() { MonScope m; delete hold; hold = nullptr; }
 
   template <class X> static void adopt(const X &) {}
-  template <int K> static void adopt(const Tracked<K> &t) { ledger_adopt(t); }
+  template <int K, int P> static void adopt(const Tracked<K, P> &t) { ledger_adopt(t); }
 
   std::vector<Val> gen_vals(size_t n, int dom) { std::vector<Val> v; for (size_t i = 0; i < n; ++i) v.push_back(nv(dom)); return v; }
 
